@@ -15,7 +15,7 @@ _REAL = {
     'copyfile': shutil.copyfile, 'rmtree': shutil.rmtree,
 }
 _ACTIVE = [None]
-_UUID = re.compile(r'^[0-9a-f]{8}-[0-9a-f]{4}-[0-9a-f]{4}-[0-9a-f]{4}-[0-9a-f]{12}$')
+_UUID = re.compile(r'[0-9a-f]{8}-[0-9a-f]{4}-[0-9a-f]{4}-[0-9a-f]{4}-[0-9a-f]{12}')
 
 PREFIXES = ('none', 'half', 'allbut1')
 BUFFER_SIZE = 8192      # io.DEFAULT_BUFFER_SIZE: a buffered file hands its data to the OS in units of this size
@@ -42,24 +42,44 @@ class Op:
         return 'Op(%d %s %s%s)' % (self.index, self.name, self.path, '' if self.size is None else ' %dB' % self.size)
 
 
-class Fault:
-    """kind: 'crash' | 'ioerror'; op: index in the write log; prefix: for write ops how much of the data reaches the
-    file before the fault ('none' | 'half' | 'allbut1'); err: errno name for ioerror."""
-    __slots__ = ('kind', 'op', 'prefix', 'err')
+OP_CLASS = {'open': 'data', 'write': 'data', 'flush': 'data', 'close': 'data', 'ftruncate': 'data', 'truncate': 'data',
+            'rename': 'link', 'replace': 'link', 'link': 'link', 'symlink': 'link',
+            'mkdir': 'dir', 'makedirs': 'dir', 'remove': 'unlink', 'rmdir': 'unlink', 'rmtree': 'unlink'}
 
-    def __init__(self, kind, op, prefix='none', err='EIO'):
-        assert kind in ('crash', 'ioerror') and prefix in PREFIXES
+
+class Fault:
+    """kind: 'crash' | 'ioerror'; op: index in the write log; prefix: for data ops how much of the data reaches the
+    file before the fault ('none' | 'half' | 'allbut1'); err: errno name for ioerror.
+
+    ioerror only: persist = None (one shot: every later operation succeeds) | 'class' (until the interposer is left,
+    every later operation of the same class - data / link / dir / unlink, see OP_CLASS - fails too: the condition that
+    made a rename fail makes the retry fail as well, while removing files still works, as with ENOSPC / EDQUOT) |
+    'all' (every later operation fails: the file system is gone). then_crash = index of a LATER entry of the log of the
+    run with this error at which the process dies (a crash inside the error-handling path)."""
+    __slots__ = ('kind', 'op', 'prefix', 'err', 'persist', 'then_crash')
+
+    def __init__(self, kind, op, prefix='none', err='EIO', persist=None, then_crash=None):
+        assert kind in ('crash', 'ioerror') and prefix in PREFIXES and persist in (None, 'class', 'all')
+        assert kind == 'ioerror' or (persist is None and then_crash is None)
         self.kind, self.op, self.prefix, self.err = kind, int(op), prefix, err
+        self.persist, self.then_crash = persist, (None if then_crash is None else int(then_crash))
 
     def to_json(self):
-        return {'kind': self.kind, 'op': self.op, 'prefix': self.prefix, 'err': self.err}
+        d = {'kind': self.kind, 'op': self.op, 'prefix': self.prefix, 'err': self.err}
+        if self.persist is not None:
+            d['persist'] = self.persist
+        if self.then_crash is not None:
+            d['then_crash'] = self.then_crash
+        return d
 
     @classmethod
     def from_json(cls, d):
-        return cls(d['kind'], d['op'], d.get('prefix', 'none'), d.get('err', 'EIO'))
+        return cls(d['kind'], d['op'], d.get('prefix', 'none'), d.get('err', 'EIO'), d.get('persist'), d.get('then_crash'))
 
     def __repr__(self):
-        return 'Fault(%s@%d %s %s)' % (self.kind, self.op, self.prefix, self.err)
+        return 'Fault(%s@%d %s %s%s%s)' % (self.kind, self.op, self.prefix, self.err,
+                                          ' persist=%s' % self.persist if self.persist else '',
+                                          ' then-crash@%d' % self.then_crash if self.then_crash is not None else '')
 
 
 def prefix_len(prefix, n):
@@ -77,9 +97,16 @@ def describe_fault(fault, log):
         if data_op:
             return 'crash in op %d %s after %s of its %s bytes' % (fault.op, where, {'none': 'none', 'half': 'half', 'allbut1': 'all but one'}[fault.prefix], op.size)
         return 'crash before op %d %s' % (fault.op, where)
+    tail = ''
+    if fault.persist == 'class':
+        tail = ' and by every later %s operation of the update' % OP_CLASS.get(op.name if op else '', '?')
+    elif fault.persist == 'all':
+        tail = ' and by every later file operation of the update'
+    if fault.then_crash is not None:
+        tail += ', followed by a crash before entry %d of the log of that run' % fault.then_crash
     if data_op:
-        return '%s raised by op %d %s after %s of its bytes were written' % (fault.err, fault.op, where, {'none': 'none', 'half': 'half', 'allbut1': 'all but one'}[fault.prefix])
-    return '%s raised by op %d %s' % (fault.err, fault.op, where)
+        return '%s raised by op %d %s after %s of its bytes were written%s' % (fault.err, fault.op, where, {'none': 'none', 'half': 'half', 'allbut1': 'all but one'}[fault.prefix], tail)
+    return '%s raised by op %d %s%s' % (fault.err, fault.op, where, tail)
 
 
 def enumerate_faults(log, crash=True, ioerror=True, both_errnos=False):
@@ -110,6 +137,38 @@ def enumerate_faults(log, crash=True, ioerror=True, both_errnos=False):
                 if carries_data and (op.size or 0) >= 2:
                     out.append(Fault('ioerror', op.index, 'half', e))
     return out
+
+
+def enumerate_persistent_faults(log, edges_only=False):
+    """I/O errors that persist (Fault.persist 'class' and 'all') starting at the entries of a recorded log.
+
+    edges_only: start only at entries that are not in the interior of a run of consecutive data operations on one
+    file (first and last write of a run, and every open / flush / close / rename / replace / remove ...)."""
+    out = []
+    for i, op in enumerate(log):
+        if edges_only and op.name == 'write':
+            prev_same = i > 0 and log[i - 1].name == 'write' and log[i - 1].path == op.path
+            next_same = i + 1 < len(log) and log[i + 1].name == 'write' and log[i + 1].path == op.path
+            if prev_same and next_same:
+                continue
+        err = 'ENOSPC' if OP_CLASS.get(op.name) in ('data', 'link', 'dir') else 'EIO'
+        out.append(Fault('ioerror', op.index, 'none', err, persist='class'))
+        out.append(Fault('ioerror', op.index, 'none', 'EIO', persist='all'))
+    return out
+
+
+def error_path_entries(reference_log, fault, faulted_log):
+    """Indices of the entries that the run with the one-shot I/O error `fault` executed AFTER the failing entry and
+    that are not the resumption of the normal sequence of operations (= the error-handling path): the continuation up
+    to the point from which it coincides (names and paths) with a suffix of the reference log."""
+    cont = faulted_log[fault.op + 1:]
+    key = lambda o: (o.name, o.path)
+    for t in range(len(cont) + 1):
+        rest = cont[t:]
+        s0 = len(reference_log) - len(rest)
+        if s0 > fault.op and [key(o) for o in rest] == [key(o) for o in reference_log[s0:]]:
+            return [o.index for o in cont[:t]]
+    return [o.index for o in cont]
 
 
 class FaultFile:
@@ -291,6 +350,9 @@ class FaultFS:
         self.log = []
         self.dead = False
         self.fired = False
+        self.crash_fired = False    # the then_crash stage of a two-stage fault was reached
+        self.repeats = 0            # how many later operations a persistent error made fail
+        self._fired_class = None
         self._dircache = {}     # valid for the lifetime of one FaultFS: the code under test does not re-point directories
 
     # ---- bookkeeping
@@ -320,8 +382,10 @@ class FaultFS:
         p = os.path.join(self._real_dir(d), b)
         r = os.path.relpath(p, self.root)
         d, b = os.path.split(r)
-        if _UUID.match(b):
+        if _UUID.fullmatch(b):
             r = os.path.join(d, '<tmp>')
+        elif _UUID.search(b):
+            r = os.path.join(d, _UUID.sub('<uuid>', b))
         return r
 
     def _begin(self, name, path, size=None, rel=None):
@@ -330,9 +394,22 @@ class FaultFS:
             raise Crash()
         idx = len(self.log)
         self.log.append(Op(idx, name, rel if rel is not None else self.rel(path), size))
-        if self.fault is not None and not self.fired and self.fault.op == idx:
-            self.fired = True
-            return self.fault
+        f = self.fault
+        if f is None:
+            return None
+        if not self.fired:
+            if f.op == idx:
+                self.fired = True
+                self._fired_class = OP_CLASS.get(name)
+                return f
+            return None
+        if f.kind == 'ioerror':
+            if f.then_crash is not None and idx == f.then_crash:
+                self.crash_fired = True
+                return Fault('crash', idx)
+            if f.persist == 'all' or (f.persist == 'class' and OP_CLASS.get(name) == self._fired_class):
+                self.repeats += 1
+                return Fault('ioerror', idx, 'none', f.err)
         return None
 
     def _raise(self, fault, path):
